@@ -307,7 +307,7 @@ class Program:
                             h = self.resolve_call(fn, call)
                         except Exception:
                             h = None
-                        if not isinstance(h, FuncInfo) or h is fn or not private(h) or h.module is not mod and not private(h):
+                        if not isinstance(h, FuncInfo) or h is fn or not private(h) or h.module is not mod:  # (same module: the body's global names keep their meaning)
                             continue
                         if any(isinstance(x, (ast.FunctionDef, ast.AsyncFunctionDef, ast.Lambda, ast.ClassDef, ast.Global, ast.Nonlocal)) for x in ast.walk(h.node) if x is not h.node):
                             continue
